@@ -62,7 +62,7 @@ EXPECT_PROBES = ["w6", "w1", "w2", "w3", "w4", "w5", "hub_inline", "hub_threaded
 def gen_plan(seed, tier):
   r = Rng(seed)
   w = r.wpick([(4, "w1"), (3, "w2"), (3, "w3"), (2, "w4"), (2, "w5")])
-  if Rng(mix(seed, "burst")).chance(0.02):
+  if Rng(mix(seed, "burst")).chance(0.03):
     # W6: a burst of hand-overs while the scheduler is held, sized around
     # the pinger's read size (its own real pinger, no line pre-emption:
     # the point is how many wake-ups are pending when they are drained)
@@ -73,7 +73,11 @@ def gen_plan(seed, tier):
                     "idle_tasks": 0, "real_pinger": True, "app_loop": False,
                     "no_trace": True, "step_cap": 400000},
             "steps": [{"thread": 0,
-                       "n": rb.pick([1023, 1024, 1025, 2048, 3, 1024])}]}
+                       "n": rb.pick([1023, 1024, 1025, 2048, 3, 1024, 4, 6]),
+                       # one of the functions raises something that is not
+                       # an Exception (sys.exit() in a callback): the ones
+                       # behind it in the batch still have to run
+                       "boom": rb.pick([None, None, 0, 1, 2])}]}
   cfg = {"workload": w, "threaded_hub": r.chance(0.5),
          "policy": r.pick(["random", "random", "pct"]),
          "switch_p": r.pick([0.05, 0.15, 0.3, 0.6]),
@@ -441,8 +445,16 @@ def _w6(sim, world, eng, plan):
   done = [False]
   t_release = [None]
 
+  boom = plan["steps"][0].get("boom")
+
+  class Exit(BaseException):
+    pass
+
   def cb(j):
     ran.append((j, world.on_sched_thread(), sim.now))
+    if boom is not None and j == boom:
+      sim.probes["w6_callback_raises_baseexception"] += 1
+      raise Exit("a handed-over function ends with sys.exit()")
   world.start_scheduler()
 
   def body():
